@@ -63,20 +63,21 @@ type Watch struct {
 
 // Cluster is a set of detached KV nodes plus the message pool.
 type Cluster struct {
-	N          int
-	Cfg        func(*memberlist.KVConfig)
-	Nodes      []*memberlist.KV
-	RingC      []*memberlist.Client
-	PRingC     []*memberlist.Client
-	Epoch      []int
-	Changes    []int // per node: number of observed state changes (any key)
-	Pool       []*Wire
-	nextID     int
-	Watches    []*Watch
-	blocked    map[[2]int]bool
-	Stats      map[string]int
-	lastCanon  []string
-	NotifyIntv time.Duration
+	JoinExchange bool // the next full-state exchanges are flagged as join exchanges
+	N            int
+	Cfg          func(*memberlist.KVConfig)
+	Nodes        []*memberlist.KV
+	RingC        []*memberlist.Client
+	PRingC       []*memberlist.Client
+	Epoch        []int
+	Changes      []int // per node: number of observed state changes (any key)
+	Pool         []*Wire
+	nextID       int
+	Watches      []*Watch
+	blocked      map[[2]int]bool
+	Stats        map[string]int
+	lastCanon    []string
+	NotifyIntv   time.Duration
 }
 
 // NewCluster starts n detached nodes inside the current bubble.
@@ -278,7 +279,12 @@ func (c *Cluster) Deliver(w *Wire, to int) {
 
 // PushPull merges the full state of `from` into `to`.
 func (c *Cluster) PushPull(from, to int) {
-	c.Nodes[to].MergeRemoteState(c.Nodes[from].LocalState(false), false)
+	// memberlist flags the exchange a node makes when it (re-)joins; the flag must not change what is sent
+	join := c.JoinExchange
+	c.Nodes[to].MergeRemoteState(c.Nodes[from].LocalState(join), join)
+	if join {
+		c.Stats["push_pulls_flagged_join"]++
+	}
 	vx.Wait()
 	c.Stats["push_pulls"]++
 }
